@@ -77,6 +77,8 @@ func main() {
 		switch os.Args[2] {
 		case "rel":
 			props.DumpRel(ctx)
+		case "order":
+			props.DumpOrder(ctx)
 		case "panic":
 			props.DumpPanic(ctx, os.Args[3])
 		}
